@@ -197,6 +197,12 @@ func ruleAccounting(p *Program, r *Result) {
 		dom := 0
 		var w ssa.CallInstruction
 		for _, x := range writes {
+			if _, deferred := x.(*ssa.Defer); deferred {
+				continue // runs when the function returns, after the reply
+			}
+			if _, spawned := x.(*ssa.Go); spawned {
+				continue // runs whenever the scheduler gets to it
+			}
 			if domInstr(x, rs.Call) {
 				dom++
 				w = x
